@@ -734,7 +734,8 @@ class NormalizedString(String):
     def serialize(self):
         s = self.__parent.serialize()
         prefixLen = len(self._name) + 2
-        lines = textwrap.wrap(s, width=76-prefixLen,
+        # A long name must not leave a width textwrap rejects (<= 0).
+        lines = textwrap.wrap(s, width=max(76-prefixLen, 20),
                 break_long_words=False, break_on_hyphens=False)
         last = len(lines)-1
         for (i, line) in enumerate(lines):
